@@ -239,13 +239,16 @@ def newProject (flt : Fault) (keys : Keys) (stg : Name → Nat → Name) (arg : 
 
 /-! ## What "the complete project" is -/
 
+/-- Content written at `q` by a step, if it is a write to `q`. -/
+def Act.writes (q : Path) : Act → Option (List Char)
+  | .write r c => if r = q then some c else none
+  | .mkdirAll _ => none
+
 /-- The tree a list of steps describes: a file at every written path, a directory at every non-empty
 prefix of a step's path that is not itself written, and the root directory; nothing else. -/
 def treeOf (acts : List Act) (q : Path) : Option Node :=
   if q = [] then some .dir
-  else match acts.findSome? (fun a => match a with
-      | .write r c => if r = q then some c else none
-      | .mkdirAll _ => none) with
+  else match acts.findSome? (Act.writes q) with
     | some c => some (.file c)
     | none => if acts.any (fun a => q.isPrefixOf a.rel) then some .dir else none
 
